@@ -119,6 +119,9 @@ const fixW, fixH = 10.0, 6.0
 
 var tabW = []float64{10, 30, 6, 18, 2, 12, 40, 0}
 var tabH = []float64{6, 12, 4, 6, 10, 0, 8, 2}
+// mixed-parity widths (SZ 9): with even widths only, every centre is an integer and two x coordinates are never less
+// than one unit apart without being equal; widths 1, 3, 7 put centres on halves
+var tabW9 = []float64{3, 1, 30, 7, 1, 18, 41, 12}
 var wset2 = []float64{2, 30}
 var wset3 = []float64{2, 10, 30}
 
@@ -151,6 +154,8 @@ func (c Cfg) expSize(i int) (w, h float64) {
 			return 40 * k, 40 * k
 		}
 		return tabW[t] * k, tabH[t] * k
+	case 9:
+		return tabW9[t] * k, tabH[t] * k
 	case 6:
 		m := c.WMask
 		for j := 0; j < i; j++ {
@@ -163,7 +168,7 @@ func (c Cfg) expSize(i int) (w, h float64) {
 
 func (c Cfg) listed(i int) bool {
 	switch c.SZ {
-	case 2, 5, 6, 8:
+	case 2, 5, 6, 8, 9:
 		return true
 	case 3, 4:
 		return i%2 == 0
